@@ -1,9 +1,10 @@
 """C03 - field algebra (deductive part)."""
 from . import fieldc
-from .fieldc import FieldInit, UnaryOp, BinaryOp, UNARY, BINARY
+from .fieldc import FieldInit, UnaryOp, BinaryOp, UNARY, BINARY, TwoFieldOp, ComplexPart
 from .shared import RegionInit, MeshInit
 
-CONTRACTS = [FieldInit()] + [UnaryOp(m) for m in UNARY] + [BinaryOp(m) for m in BINARY]
+CONTRACTS = [FieldInit()] + [UnaryOp(m) for m in UNARY] + [BinaryOp(m) for m in BINARY] + \
+    [TwoFieldOp(m) for m in ('dot', 'cross', '__lshift__')] + [ComplexPart(m) for m in ('real', 'imag', 'conjugate')]
 _BY_NAME = {c.name: c for c in CONTRACTS}
 
 
@@ -26,6 +27,8 @@ INLINED = ['Field.mesh/nvdim/array/valid/vdims/vdim_mapping/unit accessors', 'Fi
 TRUSTED = ['[A] numpy ufuncs (add, subtract, multiply, negative, abs, logical_and) act element-wise under numpy broadcasting and allocate a fresh result; np.full broadcasts its fill value into a fresh array; np.expand_dims and basic indexing return views; np.array(..., dtype=) copies', '[A] np.power and array division by a possibly-zero divisor are total uninterpreted cell-wise functions (the proof is about WHICH cells and components are combined)', 'contracts of Region.__init__/Mesh.__init__ (discharged under C01)']
 ASSUMPTIONS = ['field values are real numbers (float dtype); int/complex/bool dtypes are covered by the bounded tier (A9)', 'vdims/dims are concrete distinct labels per configuration (A5)']
 MUTANTS = {
+    'lshift_updates_operand_mapping': {'module': 'field', 'contract': 'Field.__lshift__', 'config': {'ndim': 3, 'nvdim': 2, 'other': 'field_mapped'},
+                                       'old': 'vdim_mapping = self.vdim_mapping.copy()', 'new': 'vdim_mapping = self.vdim_mapping'},
     'and_to_or': {'module': 'field', 'contract': 'Field.__add__', 'config': {'ndim': 2, 'nvdim': 3, 'other': 'field'},
                   'old': """            self._check_same_mesh_and_field_dim(other, ignore_scalar=True)
             valid = np.logical_and(valid, other.valid)""", 'new': """            self._check_same_mesh_and_field_dim(other, ignore_scalar=True)
